@@ -232,3 +232,49 @@ func TestVerifFindings(t *testing.T) {
 		}
 	})
 }
+
+// F14 (C10): the index-based reader trusted the chunk header's uncompressed size over what was actually
+// decompressed. A zstd chunk that declares more than it decodes to, loaded into a re-used slot, was scanned past
+// the decoded bytes into stale data of the previous chunk and NextInto then sliced beyond the buffer length (panic);
+// an uncompressed chunk declaring more than its records left a stale tail that was read as records.
+// (Found by an independent seeding sub-agent while probing the pristine tree; at first suppressed by name in C10.a.)
+func TestVerifFindingF14(t *testing.T) {
+	for _, compression := range []CompressionFormat{CompressionZSTD, CompressionNone} {
+		t.Run("F14-declared-size-exceeds-decoded-"+string(compression), func(t *testing.T) {
+			defer func() {
+				if r := recover(); r != nil {
+					t.Fatalf("panicked: %v", r)
+				}
+			}()
+			file := &bytes.Buffer{}
+			w, _ := NewWriter(file, &WriterOptions{Chunked: true, ChunkSize: 1 << 20, Compression: compression})
+			_ = w.WriteHeader(&Header{})
+			_ = w.WriteSchema(&Schema{ID: 1})
+			_ = w.WriteChannel(&Channel{ID: 1, SchemaID: 1})
+			data := bytes.Repeat([]byte{7}, 17)
+			for i := 0; i < 9; i++ {
+				_ = w.WriteMessage(&Message{ChannelID: 1, LogTime: uint64(i), Data: data})
+			}
+			_ = w.flushActiveChunk()
+			for i := 0; i < 2; i++ {
+				_ = w.WriteMessage(&Message{ChannelID: 1, LogTime: uint64(100 + i), Data: data})
+			}
+			_ = w.Close()
+			b := file.Bytes()
+			r, _ := NewReader(bytes.NewReader(b))
+			info, err := r.Info()
+			if err != nil || len(info.ChunkIndexes) != 2 {
+				t.Fatal(err)
+			}
+			c1, c2 := info.ChunkIndexes[0], info.ChunkIndexes[1]
+			// second chunk claims the (larger) uncompressed size of the first
+			binary.LittleEndian.PutUint64(b[c2.ChunkStartOffset+9+16:], c1.UncompressedSize)
+			got, err := vfRead(t, b, UsingIndex(true))
+			if err == nil {
+				t.Fatalf("a chunk whose declared uncompressed size (%d) exceeds what it holds (%d) was read without error: %d messages %v (stale bytes of the previous chunk read as records)",
+					c1.UncompressedSize, c2.UncompressedSize, len(got), got)
+			}
+			t.Logf("error (as it should be): %v", err)
+		})
+	}
+}
